@@ -149,3 +149,11 @@ package stgutg
 //@ driver
 //@ assumepre
 //@ nosafety
+
+// ---- C18: the configuration reaches its users as the YAML library produced it ----
+// yaml.Unmarshal is an assumed contract (it fills *c with some value, recorded in the ghost log
+// "yaml.out"); GetConfiguration hands exactly that value on, field by field, without post-processing.
+//@ func (*Conf).GetConfiguration
+//@ prop C18
+//@ ensures asparsed: vc.GhostIs("yaml.out", *c) && vc.GhostIs("yaml.out", result)
+//@ assigns c
